@@ -1,12 +1,12 @@
 SPECIFICATION Spec
 CONSTANTS
-  Fam = "beam"
+  Fam = "plain"
   NW = 2
   HeadLeft = TRUE
   G <- Gram
-  TagScores <- Scores013
-  DepScores <- Scores0
-  KBestN = 1
+  TagScores <- Scores01
+  DepScores <- Scores01
+  KBestN = 2
   MaxStep = 1000
   EstSign = 1
   Ties = "canonical"
